@@ -1,6 +1,11 @@
 """C03 - a run terminates, reaches the end time, walks each life cycle once (engine A)."""
 import itertools
 
+import os as _os
+
+# one scratch root per run (pid of the importing process, inherited by forked workers): concurrent runs must not remove each other's files
+WORK_ROOT = _os.path.join(_os.path.dirname(_os.path.dirname(_os.path.dirname(_os.path.abspath(__file__)))), "work", "C03-%d" % _os.getpid())
+
 from harness import acheck
 from harness import families as F
 
@@ -159,7 +164,7 @@ def run(tier, seed, agg):
     import os
     import shutil
 
-    shutil.rmtree(os.path.join(os.path.dirname(os.path.dirname(os.path.dirname(os.path.abspath(__file__)))), "work", "C03"), ignore_errors=True)
+    shutil.rmtree(WORK_ROOT, ignore_errors=True)
     return dict(
         level="model_checking",
         rule="explicit-state BFS over the real Composition.run for 7 (quick) / 10 (thorough) end times per family (step lengths are environment choices) plus fixed cyclic step lists crossed with the full half-hour "
@@ -182,7 +187,7 @@ def run_lib(case):
     from core.runner import viol
 
     day = timedelta(days=1)
-    work = os.path.join(os.path.dirname(os.path.dirname(os.path.dirname(os.path.abspath(__file__)))), "work", "C03", f"{os.getpid()}")
+    work = os.path.join(WORK_ROOT, f"{os.getpid()}")
     os.makedirs(work, exist_ok=True)
     res = dict(n=1, states=0, transitions=0, traces=1, nontrivial=1, counters={"library_component_runs": 1}, violations=[])
     try:
